@@ -114,7 +114,7 @@ def main():
             "kind_free_text": "runtime monitoring driver: parent plans cases from (VERIF_SEED, index), worker processes execute the real code under generated workloads, monitors/oracles in harness/model and harness/props decide; race detector build of the harness workers and of the CLI for C13/C17, of the CLI only for a sample of C18's view runs",
         }],
         "checks": checks,
-        "notes": "Technique family: runtime monitoring and sanitizers. Exit codes: 0 held on everything explored, 1 + VIOLATION line, 3 + INCONCLUSIVE line when a coverage obligation was not met. Known findings: known_findings.json - 22 'fixed' entries (repaired by fix: commits in /repo; they suppress nothing) and 3 'known' entries for C16 (copy / sum-copy / generate exit 0 when every page write to the destination fails with ENOSPC: the filebuffer dependency swallows write errors; printed as KNOWN-FINDING lines, exit 0). See DESIGN.md sections 4 and 5.",
+        "notes": "Technique family: runtime monitoring and sanitizers. Exit codes: 0 held on everything explored, 1 + VIOLATION line, 3 + INCONCLUSIVE line when a coverage obligation was not met. Known findings: known_findings.json - 21 'fixed' entries (20 fix: commits in /repo; they suppress nothing) and 3 'known' entries for C16 (copy / sum-copy / generate exit 0 when every page write to the destination fails with ENOSPC: the filebuffer dependency swallows write errors; printed as KNOWN-FINDING lines, exit 0). See DESIGN.md sections 4 and 5.",
         "not_applicable": na,
     }
     json.dump(m, open(os.path.join(HERE, "MANIFEST.json"), "w"), indent=1)
